@@ -209,3 +209,10 @@ Theorem C10_clear_survives_transient_faults :
   deliver now st (flat_map (publish attempts sc) (cleanup cancelled)) = [].
 Proof. exact clear_survives_faults. Qed.
 Print Assumptions C10_clear_survives_transient_faults.
+
+(* the pubsub loop does not stop at an error: after any sequence of received messages, receive errors, unreadable
+   and undecodable payloads, the next decoded message is handled -- an announcement stored, the shutdown Clear acted on *)
+Theorem C10_pubsub_loop_goes_on_after_errors :
+  forall st h t m, prun st (h ++ [(t, PMsg m)]) = detector_step t (prun st h) m.
+Proof. exact pubsub_goes_on. Qed.
+Print Assumptions C10_pubsub_loop_goes_on_after_errors.
